@@ -188,3 +188,15 @@ CHECKS["C48"]["post_steps"] = [_valgrind_step("rv-ident", "C48", "0.0005")]
 CHECKS["C48"]["note"] += " Sanitizer step: valgrind memcheck over a slice of the sign/verify/mutate workload (blst, secp256k1 FFI and the transmutes in signature_validator.rs)."
 CHECKS["C47"]["post_steps"] = [_valgrind_step("rv-wasm", "C47", "0.01")]
 CHECKS["C47"]["note"] += " Sanitizer step: valgrind memcheck over a slice of the host-call workload (wasmi glue)."
+
+_FLOW = "Raw instruction sequences (47 instruction kinds, V1 and V2) over accounts holding fungibles of divisibility 0/2/18, non-fungibles and XRD are generated by stepping a reference model of the transaction processor (worktop, buckets, proofs with per-container locks, auth zone) and aiming at boundaries (exactly the balance / the withdrawable amount, +-1 unit, divisibility violations, stale and consumed ids); each manifest gets a blind tidy ending so that a wrongly accepted step commits visibly; "
+reg("C09", "rv-flow", "exploration", "manifest-level reference model of worktop/bucket/proof semantics vs receipts and final vaults",
+    _FLOW + "a manifest predicted to fail for a lifecycle reason must not succeed, assertion outcomes must equal the model's, and after success every account vault must equal the model's final holdings (conservation itself is the global C03 monitor).",
+    _LEDGER_NOTE + " 5-7 % of cases (amount-based takes of non-fungibles, proofs composed over several containers) get no verdict.", "DESIGN.md §4 C09")
+reg("C10", "rv-flow", "exploration", "container lock model (max of live proofs) vs observed take/burn/recall outcomes",
+    _FLOW + "each vault/bucket keeps a multiset of live proofs; taking, burning, recalling or depositing beyond content - max(proofs) (ids: content minus proven ids) must fail, exactly the withdrawable amount and the full amount after all proofs are dropped must succeed, divisibility violations must fail.",
+    _LEDGER_NOTE, "DESIGN.md §4 C10")
+reg("C38", "rv-flow", "exploration", "observed account deposits/withdrawals vs static analyser bounds",
+    _FLOW + "for every manifest the static resource-movement analyser accepts and whose execution succeeds, the gross deposits and withdrawals per account and resource (from the vaults' own events) and the net change (pre/post database) must lie within the analyser's per-invocation and aggregated bounds (lower/upper amounts, required ids moved, ids within allow-lists, nothing moved where no invocation may move it).",
+    _LEDGER_NOTE + " The faucet stands in as the unknown component; manifests that recall from / burn inside an observed account are skipped.", "DESIGN.md §4 C38")
+CHECKS["C36"]["note"] += " Run-time half: rv-flow executes every generated manifest regardless of the static verdict and reports an accepted manifest failing with BucketNotFound/ProofNotFound/AddressReservationNotFound under C36 (run `./check C09` / `/verif/target/release/rv-flow C36 quick`)."
